@@ -73,6 +73,38 @@ pub fn compiler_ops_closed(tx: &tir::Tx) -> bool {
     ok
 }
 
+/// what is still unresolved inside the operands of compiler-evaluated built-ins
+pub fn compiler_operands_unresolved(tx: &tir::Tx) -> Unresolved {
+    fn visit(v: &CV, out: &mut Unresolved) {
+        match v {
+            CV::Array(items) => items.iter().for_each(|i| visit(i, out)),
+            CV::Map(entries) => {
+                for (k, val) in entries {
+                    if let CV::Text(t) = k {
+                        if t == "EvalCompiler" {
+                            if let CV::Map(inner) = val {
+                                for (_, operand) in inner {
+                                    walk_unresolved(operand, out);
+                                }
+                            }
+                            continue;
+                        }
+                        if matches!(t.as_str(), "String" | "Bytes" | "Address" | "Hash") {
+                            continue;
+                        }
+                    }
+                    visit(val, out);
+                }
+            }
+            CV::Tag(_, inner) => visit(inner, out),
+            _ => {}
+        }
+    }
+    let mut out = Unresolved::default();
+    visit(&CV::serialized(tx).expect("serialise"), &mut out);
+    out
+}
+
 fn has_compiler_ops(tx: &tir::Tx) -> bool {
     crate::irgen::unresolved_of(tx).compiler_ops > 0
 }
@@ -137,6 +169,28 @@ pub fn run_schedule(tx: &tir::Tx, order: &[char; 4], reduce_mask: u8, inp: &Inpu
             'F' => guard(|| cur.clone().apply_fees(inp.fee)).map(|r| r.map_err(|e| format!("{:?}", e))),
             _ => {
                 if has_compiler_ops(&cur) && !compiler_ops_closed(&cur) {
+                    // the operand of a built-in is still open. That makes the schedule inadmissible only
+                    // when the stage that closes it has not run yet; a stage that ran and left its own kind
+                    // of parameter inside a built-in's operand did not do its job
+                    let u = compiler_operands_unresolved(&cur);
+                    let ran = &order[..i];
+                    let stale = (ran.contains(&'A') && !u.values.is_empty())
+                        || (ran.contains(&'I') && !u.inputs.is_empty())
+                        || (ran.contains(&'F') && u.fees > 0);
+                    if stale {
+                        return Err(Failure::new(
+                            "applied_stage_left_builtin_operand_open",
+                            format!(
+                                "schedule {}: stages {:?} ran, yet operands of compiler built-ins still hold values {:?}, inputs {:?}, fees {}",
+                                describe(),
+                                ran,
+                                u.values,
+                                u.inputs,
+                                u.fees
+                            ),
+                            json!({"template": crate::util::trunc(&format!("{:?}", cur), 3000)}),
+                        ));
+                    }
                     return Ok(End::Inadmissible);
                 }
                 guard(|| cur.clone().apply(&mut compiler)).map(|r| r.map_err(|e| format!("{:?}", e)))
